@@ -28,6 +28,8 @@ ASSUMPTIONS = [
     'fallback configuration at large scales is capped by a point-evaluation budget; capped cases are reported as not explored',
 ]
 TS = [0.0, 0.25, 1.0 / 3.0, 0.5, 0.7, 1.0]
+# parameters close to (not at) the ends, and a short interval next to the end
+TS_NEAR_ENDS = [0.0, 1e-9, 3e-6, 0.5, 1.0 - 5e-6, 1.0 - 4e-6, 1.0 - 2e-6, 1.0]
 ROTS = [0, 90, 180, 37, 211]
 
 
@@ -93,7 +95,7 @@ def call_length(obj, t0, t1, opts, scale):
     return obj.length(t0, t1, **kw)
 
 
-def check_segment(name, scale, cfg, acc, only=None, budget=None, rot=0, shift=0j, opts=None, usq=None):
+def check_segment(name, scale, cfg, acc, only=None, budget=None, rot=0, shift=0j, opts=None, usq=None, ts=None):
     seg = AB.make(name, scale, rot=rot, shift=shift)
     kind = type(seg).__name__[0]
     cfgname = 'scipy' if cfg else 'fallback'
@@ -112,7 +114,7 @@ def check_segment(name, scale, cfg, acc, only=None, budget=None, rot=0, shift=0j
             return orig_point(self, t)
         type(seg).point = counting_point
     try:
-        for t0, t1 in itertools.combinations_with_replacement(TS, 2):
+        for t0, t1 in itertools.combinations_with_replacement(TS if ts is None else ts, 2):
             if only and (t0, t1) not in only:
                 continue
             case = {'what': 'segment', 'shape': name, 'scale': scale, 'config': cfg, 't0': t0, 't1': t1, 'rot': rot, 'shift': core.jz(shift)}
@@ -120,6 +122,8 @@ def check_segment(name, scale, cfg, acc, only=None, budget=None, rot=0, shift=0j
                 case['opts'] = opts
             if usq is not None:
                 case['use_scipy_quad'] = usq
+            if ts is not None:
+                case['near_ends'] = True
             counter['n'] = 0
             try:
                 fresh = AB.make(name, scale, rot=rot, shift=shift)       # fresh object: no cache from earlier intervals
@@ -137,6 +141,8 @@ def check_segment(name, scale, cfg, acc, only=None, budget=None, rot=0, shift=0j
                 sig['options'] = sorted(k for k in opts if k != 'how')
             if usq is not None:
                 sig['module_setting'] = 'USE_SCIPY_QUAD=%r' % usq
+            if not cfg and scale <= 1e-6:
+                sig['tiny_drawing'] = True
             if r[0] != 'ok':
                 acc.violation('length_raises', dict(sig, exc=r[1]), case, observed=r)
                 continue
@@ -167,7 +173,7 @@ def check_segment(name, scale, cfg, acc, only=None, budget=None, rot=0, shift=0j
                 acc.violation('disagrees_with_quadrature', sig, case, observed=v, expected=q)
         # additivity
         if not only:
-            for t0, tm, t1 in itertools.combinations(TS, 3):
+            for t0, tm, t1 in itertools.combinations(TS if ts is None else ts, 3):
                 if (t0, t1) in vals and (t0, tm) in vals and (tm, t1) in vals:
                     whole, parts = vals[(t0, t1)], vals[(t0, tm)] + vals[(tm, t1)]
                     z = refgeom_zero(seg, t0, t1)
@@ -175,7 +181,7 @@ def check_segment(name, scale, cfg, acc, only=None, budget=None, rot=0, shift=0j
                     acc.case({'what': 'additivity', 'shape': name, 'scale': scale, 'config': cfg, 't': [t0, tm, t1]},
                              cls='additivity/%s' % cfgname)
                     if not abs(whole - parts) <= rel * max(whole, parts) + 1e-13 * scale:
-                        acc.violation('not_additive', {'kind': kind, 'config': cfgname, 'branch': branch},
+                        acc.violation('not_additive', dict({'kind': kind, 'config': cfgname, 'branch': branch}, **({'tiny_drawing': True} if (not cfg and scale <= 1e-6) else {})),
                                       {'what': 'segment', 'shape': name, 'scale': scale, 'config': cfg, 't0': t0, 't1': t1, 'tm': tm, 'rot': rot, 'shift': core.jz(shift)},
                                       observed=[whole, parts])
     finally:
@@ -246,8 +252,8 @@ def check_long_paths(cfg, acc):
 
 def tier_params(tier, seed):
     if tier == 'quick':
-        return {'scipy_scales': [1e-3, 1.0, 1e3, 1e6], 'fallback_scales': [1e-3, 2.0 ** -6], 'budget': 3_000_000}
-    return {'scipy_scales': [1e-3, 1e-1, 1.0, 1e3, 1e6], 'fallback_scales': [1e-3, 2.0 ** -6, 1.0], 'budget': 30_000_000}
+        return {'scipy_scales': [1e-9, 1e-3, 1.0, 1e3, 1e6, 1e9], 'fallback_scales': [1e-9, 1e-3, 2.0 ** -6], 'budget': 3_000_000}
+    return {'scipy_scales': [1e-12, 1e-9, 1e-6, 1e-3, 1e-1, 1.0, 1e3, 1e6, 1e9], 'fallback_scales': [1e-9, 1e-6, 1e-3, 2.0 ** -6, 1.0], 'budget': 30_000_000}
 
 
 def names():
@@ -271,6 +277,9 @@ def shards(tier, seed):
     for n in names():
         if n not in AB.ARCS:
             out.append({'what': 'segment', 'config': True, 'scale': 1.0, 'shape': n, 'rot': 0, 'shift': [3e5, 2e5]})
+        out.append({'what': 'segment', 'config': True, 'scale': 1.0, 'shape': n, 'rot': 0, 'shift': [1e6, 1e6]})
+        out.append({'what': 'segment', 'config': True, 'scale': 1.0, 'shape': n, 'rot': 0, 'near_ends': True})
+        out.append({'what': 'segment', 'config': False, 'scale': 2.0 ** -6, 'shape': n, 'rot': 0, 'near_ends': True})
     # the same segments as the library hands them out (derived objects: numpy scalars, warm caches, ...)
     out += AB.provenance_shards(out, tier, lambda d: d['what'] == 'segment' and d['rot'] in (0, 37) and 'shift' not in d and
                                 d['scale'] == (1.0 if d['config'] else 2.0 ** -6))
@@ -306,7 +315,8 @@ def run_shard(desc, tier, seed):
         else:
             check_segment(desc['shape'], desc['scale'], desc['config'], acc,
                           budget=None if desc['config'] else tp['budget'], rot=desc.get('rot', 0),
-                          shift=complex(*desc.get('shift', [0, 0])), opts=LENGTH_OPTS[desc.get('opts', 0)], usq=desc.get('use_scipy_quad'))
+                          shift=complex(*desc.get('shift', [0, 0])), opts=LENGTH_OPTS[desc.get('opts', 0)], usq=desc.get('use_scipy_quad'),
+                          ts=TS_NEAR_ENDS if desc.get('near_ends') else None)
     finally:
         sp._quad_available = old
         sp.USE_SCIPY_QUAD = old_usq
@@ -346,10 +356,10 @@ def replay(case):
         elif case['what'] == 'path':
             check_paths(case['config'], acc)
         elif 'tm' in case:
-            check_segment(case['shape'], case['scale'], case['config'], acc, rot=case.get('rot', 0), shift=complex(*case.get('shift', [0, 0])), opts=case.get('opts'), usq=case.get('use_scipy_quad'))
+            check_segment(case['shape'], case['scale'], case['config'], acc, rot=case.get('rot', 0), shift=complex(*case.get('shift', [0, 0])), opts=case.get('opts'), usq=case.get('use_scipy_quad'), ts=TS_NEAR_ENDS if case.get('near_ends') else None)
             acc.vlist = [v for v in acc.vlist if v['clause'] == 'not_additive']
         else:
-            check_segment(case['shape'], case['scale'], case['config'], acc, only=[(case['t0'], case['t1'])], rot=case.get('rot', 0), shift=complex(*case.get('shift', [0, 0])), opts=case.get('opts'), usq=case.get('use_scipy_quad'))
+            check_segment(case['shape'], case['scale'], case['config'], acc, only=[(case['t0'], case['t1'])], rot=case.get('rot', 0), shift=complex(*case.get('shift', [0, 0])), opts=case.get('opts'), usq=case.get('use_scipy_quad'), ts=TS_NEAR_ENDS if case.get('near_ends') else None)
     finally:
         sp._quad_available = old
         sp.USE_SCIPY_QUAD = old_usq
